@@ -362,7 +362,12 @@ impl Server {
 
       let router = if let Some((username, password)) = settings.credentials() {
         #[allow(deprecated)]
-        router.layer(ValidateRequestHeaderLayer::basic(username, password))
+        router
+          .layer(ValidateRequestHeaderLayer::basic(username, password))
+          .layer(SetResponseHeaderLayer::if_not_present(
+            header::CONTENT_SECURITY_POLICY,
+            HeaderValue::from_static("default-src 'self'"),
+          ))
       } else {
         router
       };
